@@ -197,7 +197,22 @@ class FakeTime:
         self.env = env
 
     def time(self) -> float:
-        return (self.env.clock.read_ms() * 1000 + 500) / 1e6
+        env = self.env
+        why = None
+        if env.sched.me() is not None:
+            for fn, n in _frames(2, 3):
+                if fn == "garbage_collector.py" and n == "_load_inflight_protection":
+                    why = "gcm"
+                    break
+                if fn == "garbage_collector.py" and n == "_gc_prefix":
+                    why = "gcc"
+                    break
+        if why:
+            _async_here(env, env.sched.gate("now", why=why), "now")
+        ms = env.clock.read_ms()
+        if why:
+            env.sched.emit({"k": "Now", "why": why, "val": env.clock.rel(ms)})
+        return (ms * 1000 + 500) / 1e6
 
     def monotonic(self) -> float:
         return (self.env.clock.read_ms() * 1000 + 500) / 1e6
@@ -251,6 +266,7 @@ class Env:
         self.nfiles: Dict[str, int] = {}            # actor -> files written in this attempt
         self.ndata: Dict[str, int] = {}             # actor -> data files written in this operation
         self.allow_spin = False                     # let lock pollers spin (timeout experiments)
+        self.data_age_ms = 0                        # > 0: data files are back-dated by this much when written
         self.table_root: Optional[str] = None
         self.fault_exc: Callable[[str], BaseException] = lambda what: OSError(f"injected fault: {what}")
 
@@ -516,7 +532,8 @@ def _emit_storage_event(env: Env, a: Actor, op: str, cls: str, path: str, args: 
             s.emit({"k": "WriteMarker", "f": f, "tcls": tcls, "ok": ok, "err": errname})
         elif cls in ("man", "list"):
             f = env.register_new_file(a.name, path)
-            ev: Dict[str, Any] = {"k": "WriteMan" if cls == "man" else "WriteList", "f": f, "ok": ok, "err": errname}
+            ev: Dict[str, Any] = {"k": "WriteMan" if cls == "man" else "WriteList", "f": f, "ok": ok, "err": errname,
+                                  "mt": env.clock.rel(env.clock.peek_ms())}
             if ok:
                 from . import project
 
@@ -689,7 +706,14 @@ def install(env: Env) -> None:
                 os.utime(self.storage._resolve_path(file_path), (vt, vt))
             except Exception:  # noqa: BLE001
                 pass
-        env.sched.emit({"k": "WriteData", "f": f, "ok": True})
+        mt = env.clock.peek_ms()
+        if env.data_age_ms:
+            mt -= env.data_age_ms                      # scenario: the data file is already old when written
+            try:
+                os.utime(self.storage._resolve_path(file_path), (mt / 1000.0, mt / 1000.0))
+            except Exception:  # noqa: BLE001
+                pass
+        env.sched.emit({"k": "WriteData", "f": f, "ok": True, "mt": env.clock.rel(mt)})
         if isinstance(directive, Fault) and directive.when == "after":
             env.sched.emit({"k": "Fault", "op": "write_data", "cls": "data", "when": "after", "kind": directive.kind, "f": f})
             raise directive.make(f"write_data({file_path})")
